@@ -572,6 +572,28 @@ def output_pushes(F, rep, lf):
     rep.count("output_line_pushes", n)
     if n < 4:
         rep.unresolved("R3", "pushes", f"only {n} output-line pushes found in convert")
+    # what was pushed stays: between the pushes and the final join the output vector is only reordered (R5), never thinned —
+    # `dedup()` would merge two identical fills into one, `retain`/`truncate`/`pop`/`drain` would drop rows without a warning
+    REMOVING = ("dedup", "dedup_by", "dedup_by_key", "retain", "retain_mut", "truncate", "drain", "pop", "remove", "swap_remove", "clear", "split_off")
+    thinned = []
+    n_out = 0
+    for key, items in groups.items():
+        if not any(p in lf or p in headers for hb, t, m, v in items for p in producers(v)):
+            continue
+        n_out += 1
+        hb = F.bodies[key[0]]
+        for i, t in hb.calls():
+            m = parse_callee(t["callee"])[2]
+            if m in REMOVING and "Vec" in t["callee"] and t["args"]:
+                r = root_of_operand(hb, t["args"][0])
+                if r and r[0] == key[1]:
+                    thinned.append((hb, t, m))
+    for hb, t, m in thinned:
+        rep.ob("R2", f"{hb.short}:output-lines:{m}", False,
+               f"the vector of output lines is thinned by `{m}` after the rows were converted: rows are dropped (or merged) without a warning or a count",
+               hb.loc(t["sp"]), key=f"R2:{hb.short}:output-thinned:{m}")
+    rep.ob("R2", "convert:output-lines-kept", not thinned, f"{n_out} output vector(s): lines are only pushed and reordered" if not thinned else
+           f"{len(thinned)} removing operations on the output lines", "", key="R2:convert:output-lines-kept")
     # header lines: every element is a comment or the empty string; every text formatted inside the header builder is wrapped
     # by the comment formatter (no ad-hoc line)
     for hid in headers:
